@@ -223,4 +223,29 @@ def handle : List String → String
     | _ => "bad-op"
   | _ => "bad-op"
 
+/-- engine `cellmv`: the same scenario with the driver polled from a different task each time.
+    Which task a wake reaches is outside the model (its waker is a Bool); what the property
+    speaks about — the cell, what the driver and the handles report, the close calls, and
+    whether the driver is left parked with the error set (`lost`) — does not depend on it, so
+    only those tokens are compared. -/
+def reduceMv (alt : String) : String :=
+  let head := (alt.splitOn " | ").headD ""
+  let rec go : List String → List String
+    | "woken" :: _ :: r => go r
+    | "parked" :: _ :: r => go r
+    | "quiet" :: _ :: r => go r
+    | "**" :: r => go r
+    | t :: r => t :: go r
+    | [] => []
+  " ".intercalate (go (head.splitOn " "))
+
+def handleMv (ws : List String) : String :=
+  match ws with
+  | "cellmv" :: rest =>
+    let out := handle ("cell" :: rest)
+    match out.splitOn " ## " with
+    | [m, s] => reduceMv m ++ " ## " ++ " || ".intercalate ((s.splitOn " || ").map reduceMv)
+    | _ => out
+  | _ => "bad-op"
+
 end H3.Drv.C05
